@@ -154,7 +154,8 @@ def models(tier):
     fams = ['linmix', 'canon', 'uenc', 'sharing'] if tier == 'quick' else None
     out = []
     for i, (fam, name, m) in enumerate(flatgen.all_models('quick', fams)):
-        out.append((fam, name, m))
+        if fam in ('alldiffcont', 'sos', 'compl'): continue     # alldiff over non-integer expressions is refused by the converter;
+        out.append((fam, name, m))                               # SOS/complementarity: auxiliaries not functionally determined
     if tier == 'quick':
         d1 = [(f, n, m) for (f, n, m) in flatgen.all_models('quick', ['shapes'])]
         out += d1[::12]
